@@ -2904,3 +2904,138 @@ def r12_source_collector_is_fresh_per_input_variable(ctx, rid):
 
 
 RULES.append(("C01-R12", r12_source_collector_is_fresh_per_input_variable, 1))
+
+
+# ================================================================================================
+# R13 the decision to drop a weight factor is an absolute comparison with the declared tolerance
+# ================================================================================================
+
+CLOSENESS = {"numpy.allclose": ("rtol", "atol", 2, 3, "1e-05"), "numpy.isclose": ("rtol", "atol", 2, 3, "1e-05"),
+             "math.isclose": ("rel_tol", "abs_tol", None, None, "1e-09")}
+ABS_CALLS = {"abs", "fabs", "absolute"}
+
+
+def _tolerance_params(ctx):
+    """{function: {parameter}}: parameters of functions in pyrates/ir/circuit.py that carry a declared small absolute
+    tolerance — a default that is a float literal (or named module constant) in (0, 1e-3] — and the parameters of repository
+    functions they are handed on to."""
+    out: Dict[object, Set[str]] = {}
+    work = []
+    for f in ctx.repo.all_functions([IR]):
+        a = f.node.args
+        pos = a.posonlyargs + a.args
+        pairs = list(zip(pos[len(pos) - len(a.defaults):], a.defaults)) + [(k, d) for k, d in zip(a.kwonlyargs, a.kw_defaults) if d is not None]
+        for arg, d in pairs:
+            if isinstance(d, ast.Name):
+                d = module_constant(ctx, f.module, d.id) or d
+            if isinstance(d, ast.Constant) and isinstance(d.value, float) and 0 < d.value <= 1e-3:
+                out.setdefault(f, set()).add(arg.arg)
+                work.append((f, arg.arg))
+    while work:
+        f, p_ = work.pop()
+        for call, targets, how in ctx.cg.calls.get(f, ()):
+            if how == "by-name":
+                continue
+            for g in targets:
+                for q, x in _bind_args(g, call).items():
+                    if isinstance(x, ast.Name) and x.id == p_ and q in g.params and q not in out.get(g, set()):
+                        out.setdefault(g, set()).add(q)
+                        work.append((g, q))
+    return out
+
+
+def r13_weight_factor_dropped_only_within_absolute_tolerance(ctx, rid):
+    """The edge-equation generator leaves the weight factor out of the emitted term when the weights are 1 up to the declared
+    tolerance (`weight_minimum`, 1e-8).  Necessary: that decision is an absolute comparison |w - 1| < tol for all weights.  A
+    closeness helper with an implicit relative part (np.allclose / np.isclose default rtol=1e-05, math.isclose default
+    rel_tol=1e-09) widens the tolerance by orders of magnitude: weights like 1 + 5e-7 silently lose their multiplication.
+    Instances: every use of a declared tolerance parameter (found by its small float default, followed into the helpers it is
+    handed to) and every closeness-helper call against 1 in the tests of those functions."""
+    tol = _tolerance_params(ctx)
+    ctx.require(tol, f"{rid}: no parameter with a small float default (declared tolerance) found in {IR}")
+    n = 0
+    for f, params in sorted(tol.items(), key=lambda kv: kv[0].qual):
+        cfg = ctx.cfg(f)
+        judged_calls = set()
+
+        def closeness(call):
+            return CLOSENESS.get(ctx.repo.external_name(f.module, call.func) or "")
+
+        def judge_closeness(call, use):
+            spec = closeness(call)
+            rel_kw, abs_kw, rel_pos, abs_pos, dflt = spec
+            kws = {k.arg: k.value for k in call.keywords}
+            rel = kws.get(rel_kw) if rel_kw in kws else (call.args[rel_pos] if rel_pos is not None and len(call.args) > rel_pos else None)
+            abs_ = kws.get(abs_kw) if abs_kw in kws else (call.args[abs_pos] if abs_pos is not None and len(call.args) > abs_pos else None)
+            name = ast.unparse(call.func)
+            if rel is None:
+                return False, f"`{name}` adds a relative tolerance ({rel_kw} defaults to {dflt}) to the declared absolute one"
+            if not (isinstance(rel, ast.Constant) and rel.value in (0, 0.0)):
+                if isinstance(rel, ast.Name) and rel.id in params:
+                    return False, f"`{name}` uses the declared absolute tolerance as relative tolerance `{rel_kw}`"
+                raise AnalysisError(f"{rid}: {f.qual}: `{ast.unparse(call)}`: relative tolerance `{ast.unparse(rel)}` is not a literal")
+            if not (isinstance(abs_, ast.Name) and abs_.id in params):
+                return False, f"`{name}` does not compare with the declared tolerance (`{abs_kw}` is `{ast.unparse(abs_) if abs_ is not None else 'its default'}`)"
+            return True, f"`{name}` with {rel_kw}=0 and {abs_kw}=the declared tolerance is the absolute comparison"
+        sites = []
+        # a small float default alone does not make a tolerance (step sizes …): the parameter must bound a comparison here
+        def bounds_something(pn):
+            for x in walk_shallow(f.node):
+                if isinstance(x, ast.Name) and isinstance(x.ctx, ast.Load) and x.id == pn:
+                    if isinstance(parent(x), ast.Compare):
+                        return True
+                    c = next((a for a in _anc(x) if isinstance(a, ast.Call) and (x in a.args or any(k.value is x for k in a.keywords))), None)
+                    if c is not None and closeness(c) is not None:
+                        return True
+            return False
+        params = {pn for pn in params if bounds_something(pn)}
+        if not params:
+            continue
+        for use in [x for x in walk_shallow(f.node) if isinstance(x, ast.Name) and isinstance(x.ctx, ast.Load) and x.id in params]:
+            par = parent(use)
+            # handed on to a repository function (followed there) / keyword of a closeness helper
+            call = next((a for a in _anc(use) if isinstance(a, ast.Call) and (use in a.args or any(k.value is use for k in a.keywords))), None)
+            if call is not None and closeness(call) is not None:
+                if id(call) not in judged_calls:
+                    judged_calls.add(id(call))
+                    sites.append((call, judge_closeness(call, use)))
+                continue
+            if call is not None:
+                targets, how = ctx.cg.resolve_call(f, call)
+                if targets and how != "by-name":
+                    continue
+                if isinstance(par, ast.keyword) and par.arg is None:
+                    continue
+                raise AnalysisError(f"{rid}: {f.qual}: the tolerance `{use.id}` is handed to `{ast.unparse(call.func)}` (unrecognised use)")
+            if isinstance(par, ast.Compare) and len(par.ops) == 1 and isinstance(par.ops[0], (ast.Lt, ast.LtE, ast.Gt, ast.GtE)):
+                other = par.comparators[0] if par.left is use else par.left
+                smaller_is_other = (par.left is not use) == isinstance(par.ops[0], (ast.Lt, ast.LtE))
+                has_abs = any(isinstance(c, ast.Call) and call_name(c) in ABS_CALLS for c in ast.walk(other))
+                if has_abs and smaller_is_other:
+                    sites.append((par, (True, f"`{_plain(ast.unparse(par))}` bounds an absolute difference by the declared tolerance")))
+                    continue
+                raise AnalysisError(f"{rid}: {f.qual}: `{ast.unparse(par)}` compares with the tolerance in an unrecognised form")
+            if isinstance(par, ast.keyword) or isinstance(par, (ast.Dict,)):
+                continue        # stored / forwarded as data
+            raise AnalysisError(f"{rid}: {f.qual}: unrecognised use of the tolerance `{use.id}` in `{norm(stmt_of(cfg, use))}`")
+        # closeness helpers against 1 that do not even mention the declared tolerance
+        for c in [x for x in walk_shallow(f.node) if isinstance(x, ast.Call) and closeness(x) is not None and id(x) not in judged_calls]:
+            if any(isinstance(a, ast.Constant) and a.value in (1, 1.0) for a in c.args) and \
+                    any(isinstance(a, (ast.If, ast.IfExp, ast.While)) and contains(a.test, c) for a in _anc(c)):
+                judged_calls.add(id(c))
+                sites.append((c, judge_closeness(c, None)))
+        for node, (ok_, why) in sites:
+            st = stmt_of(cfg, node)
+            n += 1
+            label = f"unit-weight test `{_plain(norm(st))}`"
+            if ok_:
+                ctx.ok(rid, f, st, f"{why}", {"test": _plain(ast.unparse(node))}, label=label)
+            else:
+                ctx.violation(rid, f, st, f"`{_plain(ast.unparse(node))}` decides whether a weight counts as 1 (the weight factor is left out of "
+                                          f"the emitted term), but {why}: weights that differ from 1 by far more than the declared "
+                                          f"tolerance are treated as 1 and their multiplication vanishes from the generated equation",
+                              {"test": _plain(ast.unparse(node))}, label=label)
+    ctx.require(n >= 1, f"{rid}: no test against a declared tolerance found in {IR}")
+
+
+RULES.append(("C01-R13", r13_weight_factor_dropped_only_within_absolute_tolerance, 2))
